@@ -117,8 +117,43 @@ PLATES = ["eurasian", "Eurasian", "NORTH AMERICAN", "pacific", "african", "nazca
 ODD_PLATES = ["Somali"]
 
 
-def gen_site_info(rng, n: int, keys: Optional[List[str]] = None) -> Dict[str, Any]:
-    """`keys`: generate new site information for these station codes (an *update* of an earlier dictionary)"""
+def irregular_histories(rng, t0: datetime, end: datetime):
+    """equipment histories that are not one shared list of periods: every equipment type has its own change dates, and
+    one of them has an interruption (the end of an entry earlier than the start of the next) inside which — most of the
+    time — another equipment type changes; also a type that is installed later than the others.  Returns
+    {"receiver": periods, "antenna": periods, "eccentricity": periods} (chronological, non-overlapping)"""
+    kinds = ["receiver", "antenna", "eccentricity"]
+    g = rng.choice(kinds)
+    others = [k for k in kinds if k != g]
+    rng.shuffle(others)
+    g0 = t0 + timedelta(days=rng.randint(200, 2000))
+    g1 = g0 + timedelta(days=rng.randint(30, 900))
+    out = {g: [(t0, g0), (g1, end)]}
+    if rng.random() < 0.3:  # a further change of the interrupted type after the interruption
+        c = g1 + timedelta(days=rng.randint(30, 900))
+        out[g] = [(t0, g0), (g1, c), (c, end)]
+    h = others[0]
+    if rng.random() < 0.8:  # a change of another type inside the interruption
+        hc = g0 + timedelta(days=rng.randint(1, max(1, (g1 - g0).days - 1)))
+    else:
+        hc = t0 + timedelta(days=rng.randint(30, 3000))
+    out[h] = [(t0, hc), (hc, end)] if hc > t0 else [(t0, end)]
+    k = others[1]
+    r = rng.random()
+    if r < 0.4:
+        out[k] = [(t0, end)]
+    elif r < 0.8:
+        kc = t0 + timedelta(days=rng.randint(30, 3000))
+        out[k] = [(t0, kc), (kc, end)]
+    else:  # installed later than the rest
+        ks = t0 + timedelta(days=rng.randint(10, 400))
+        out[k] = [(ks, end)]
+    return out
+
+
+def gen_site_info(rng, n: int, keys: Optional[List[str]] = None, irregular: float = 0.0) -> Dict[str, Any]:
+    """`keys`: generate new site information for these station codes (an *update* of an earlier dictionary);
+    `irregular`: share of stations whose equipment histories have interruptions / own change dates per equipment type"""
     used: set = set()
     si: Dict[str, Any] = {}
     for i in range(len(keys) if keys is not None else n):
@@ -135,19 +170,22 @@ def gen_site_info(rng, n: int, keys: Optional[List[str]] = None) -> Dict[str, An
         cuts = sorted({t0 + timedelta(days=rng.randint(30, 3000)) for _ in range(rng.randint(0, 2))})
         bounds = [t0] + cuts + [datetime(2099, 12, 31)]
         periods = list(zip(bounds[:-1], bounds[1:]))
+        per = {"receiver": periods, "antenna": periods, "eccentricity": periods}
+        if irregular and rng.random() < irregular:
+            per = irregular_histories(rng, t0, datetime(2099, 12, 31))
         ant_hist = {p: NS(type=rng.choice(["TRM57971.00", "LEIAT504GG", "ASH701945D_M", "AOAD/M_T"]),
                           serial_number=rng.choice(["1551009151", "CR520020903", "99390", "3311A"]),
                           radome_type=rng.choice(["NONE", "TZGD", "LEIS", None]), calibration=rng.choice([None, "x"]),
-                          date_from=p[0], date_to=p[1]) for p in periods}
+                          date_from=p[0], date_to=p[1]) for p in per["antenna"]}
         rcv_hist = {p: NS(type=rng.choice(["TRIMBLE NETR9", "LEICA GRX1200GGPRO", "SEPT POLARX5", "ASHTECH UZ-12"]),
                           serial_number=rng.choice(["5548R50598", "356103", "ZR520", "3310A"]),
-                          firmware=rng.choice(["5.22", "Nav 1.30", "9.20", "6.00"])) for p in periods}
+                          firmware=rng.choice(["5.22", "Nav 1.30", "9.20", "6.00"])) for p in per["receiver"]}
         ecc_hist = {p: NS(north=rng.choice([0.0, round(rng.uniform(-9, 9), 4)]), east=rng.choice([0.0, round(rng.uniform(-9, 9), 4)]),
-                          up=rng.choice([0.0, 0.0054, round(rng.uniform(0, 99), 4)])) for p in periods}
+                          up=rng.choice([0.0, 0.0054, round(rng.uniform(0, 99), 4)])) for p in per["eccentricity"]}
         si[k] = {
             "site_coord": {"last": coord} if has_coord else {},
             "identifier": ident,
-            "antenna": NS(date_from=[p[0] for p in periods], date_to=[p[1] for p in periods], history=ant_hist),
+            "antenna": NS(date_from=[p[0] for p in per["antenna"]], date_to=[p[1] for p in per["antenna"]], history=ant_hist),
             "receiver": NS(history=rcv_hist),
             "eccentricity": NS(history=ecc_hist),
         }
@@ -263,7 +301,8 @@ class Run:
             return text
         first_path = self.last_path
         self.ctx.count("repeat-call")
-        again = self.write_once(writer, inputs, case, path_key, **kw)
+        # nothing touches the inputs between the two calls: the digests taken after the first are those before the second
+        again = self.write_once(writer, inputs, case, path_key, _before=self.after_each, **kw)
         if again is None or not same_output(writer, text, again):
             self.ctx.violate(f"repeat-differs:{writer}", f"{writer} called twice on the same input in one process wrote two different "
                              f"files ({'raised ' + again[:80] if again and again.startswith('!!') else 'second differs'})", case)
@@ -279,25 +318,43 @@ class Run:
         self.last_path = first_path
         return text
 
-    def write_once(self, writer: str, inputs: Dict[str, Any], case: Dict[str, Any], path_key: str = "file_path", **kw) -> Optional[str]:
+    def check_module_state(self, writer: str, before: Dict[str, str], case) -> None:
+        """a writer keeps nothing between calls: the module-level tables are the same after the call"""
+        after = module_state(writer)
+        self.ctx.count("module-state-snapshot")
+        changed = sorted(k for k in set(before) | set(after) if before.get(k) != after.get(k))
+        if changed:
+            self.ctx.violate(f"module-state-mutated:{writer}", f"{writer} changed module-level state during a call (the next call in "
+                             f"this process starts from different tables): {changed[:4]}", case)
+
+    def write_once(self, writer: str, inputs: Dict[str, Any], case: Dict[str, Any], path_key: str = "file_path", _before=None, **kw) -> Optional[str]:
         from midgard import writers
 
-        before = c16_canon.digest(inputs)
-        self.before_each = {k: c16_canon.digest(v) for k, v in inputs.items()}
+        self.before_each = dict(_before) if _before is not None else {k: c16_canon.digest(v) for k, v in inputs.items()}
+        before = self.before_each
         fp = self.path(writer)
+        try:
+            import importlib
+
+            importlib.import_module(f"midgard.writers.{writer}")
+        except Exception:
+            pass
+        mod_before = module_state(writer)
         try:
             with quiet():
                 writers.write(writer, **{path_key: fp}, **inputs, **kw)
         except Exception as e:
-            after = c16_canon.digest(inputs)
+            self.check_module_state(writer, mod_before, case)
+            after = self.after_each = {k: c16_canon.digest(v) for k, v in inputs.items()}
             if before != after:
                 self.ctx.violate(f"input-mutated:{writer}", f"{writer} changed the objects it was given (and raised)", case)
             name = type(e).__name__
             self.ctx.count(f"{writer}:raised:{name}")
             return f"!!{name}: {e}"
-        after = c16_canon.digest(inputs)
+        self.check_module_state(writer, mod_before, case)
+        after = self.after_each = {k: c16_canon.digest(v) for k, v in inputs.items()}
         if before != after:
-            changed = [k for k, v in inputs.items() if c16_canon.digest(v) != self.before_each.get(k)]
+            changed = [k for k in inputs if after.get(k) != before.get(k)]
             self.ctx.violate(f"input-mutated:{writer}", f"{writer} changed the objects it was given: {changed}"
                              + (f"; fields is now {inputs['fields']}" if "fields" in changed else ""), case)
         try:
@@ -308,6 +365,36 @@ class Run:
             self.last_path = fp
 
 
+def module_state(writer: str) -> Dict[str, str]:
+    """digests of the mutable module-level objects a writer could keep state in: containers among the globals of its
+    module (and of writers/_writers.py), mutable default arguments of its functions, containers among the attributes of
+    its classes"""
+    out: Dict[str, str] = {}
+    for modname in (f"midgard.writers.{writer}", "midgard.writers._writers"):
+        mod = sys.modules.get(modname)
+        if mod is None:
+            continue
+        for name, v in list(vars(mod).items()):
+            if name.startswith("__"):
+                continue
+            if isinstance(v, (dict, list, set)):
+                out[f"{modname}.{name}"] = c16_canon.digest(v)
+            elif isinstance(v, type) and getattr(v, "__module__", None) == modname:
+                for an, av in list(vars(v).items()):
+                    if isinstance(av, (dict, list, set)):
+                        out[f"{modname}.{name}.{an}"] = c16_canon.digest(av)
+                    elif callable(av) or isinstance(av, (staticmethod, classmethod)):
+                        fn = getattr(av, "__func__", av)
+                        for i, dv in enumerate(getattr(fn, "__defaults__", None) or ()):
+                            if isinstance(dv, (dict, list, set)):
+                                out[f"{modname}.{name}.{an}.default{i}"] = c16_canon.digest(dv)
+            elif callable(v) and getattr(v, "__module__", None) == modname:
+                for i, dv in enumerate(getattr(v, "__defaults__", None) or ()):
+                    if isinstance(dv, (dict, list, set)):
+                        out[f"{modname}.{name}.default{i}"] = c16_canon.digest(dv)
+    return out
+
+
 def digests(inputs) -> Dict[str, str]:
     return {k: c16_canon.digest(v) for k, v in inputs.items()}
 
@@ -316,6 +403,119 @@ def near(a: float, b: float, prec: int) -> bool:
     if math.isnan(a) or math.isnan(b):
         return math.isnan(a) and math.isnan(b)
     return abs(Fraction(a) - Fraction(b)) <= Fraction(1, 2 * 10**prec) + Fraction(abs(b)) * Fraction(1, 2**50)
+
+
+# -------------------------------------------------------------------------------------------------
+# whole files: the Lean renderer against the writer's bytes, the Lean parser model against the library's parser
+
+
+def header_texts(writer: str, text: str, agency: str, *more: str) -> Optional[List[str]]:
+    """the replacement fields of `_get_header`, in order: the `solution` text (built here from the agency; only the
+    digits of the date are taken from the file — they are the wall clock), the wall-clock stamp, then `more`"""
+    line1 = text.split("\n", 1)[0]
+    m = re.match(r"^(.{64}) (.*)$", line1)
+    if not m:
+        return None
+    sol = f"{agency.upper()} solution"
+    if writer in ("bernese_crd", "bernese_vel"):
+        d = re.match(re.escape(sol) + r" (\d{8}) *$", m.group(1))
+        if not d:
+            return None
+        sol = f"{sol} {d.group(1)}"
+    return [sol, m.group(2), *more]
+
+
+def file_vs_model(ctx, writer: str, cmd: str, case, text: str) -> None:
+    """the whole file, byte for byte, against the Lean renderer (header cells + data lines)"""
+    ans = ctx.driver.ask1(cmd)
+    model = None if ans == "err" else bytes.fromhex(ans).decode("utf-8")
+    ctx.count(f"file-bytes:{writer}")
+    if model != text:
+        ml, tl = (model or "").splitlines(keepends=True), text.splitlines(keepends=True)
+        bad = next((j for j, (a, b) in enumerate(zip(ml, tl)) if a != b), min(len(ml), len(tl)))
+        ctx.disagree(f"{writer} whole file (Lean renderer vs the writer's bytes)", {**case, "first_bad_line": bad},
+                     None if model is None else ml[bad : bad + 2], tl[bad : bad + 2])
+
+
+def real_rows(pname: str, path: Path, names: List[str], blank_filter: bool) -> Any:
+    """`self.data` of a genfromtxt parser of the library, row by row (canonical), or the exception's name"""
+    from midgard import parsers
+
+    with quiet():
+        try:
+            p = parsers.parse_file(pname, path)
+            data = p.data
+        except Exception as e:
+            return f"!!{type(e).__name__}"
+    if not data or names[0] not in data:
+        return []
+    n = len(np.atleast_1d(data[names[0]]))
+    rows = []
+    for i in range(n):
+        if blank_filter and str(np.atleast_1d(data["station"])[i]) == "":
+            continue  # what as_dict skips
+        row = []
+        for nm in names:
+            v = np.atleast_1d(data[nm])[i]
+            if isinstance(v, (float, np.floating)):
+                row.append("f:nan" if math.isnan(v) else ("f", float(v)))
+            else:
+                row.append("u:" + hexs(str(v)))
+        rows.append(row)
+    return rows
+
+
+def model_rows(ctx, cmd: str, text: str) -> Any:
+    ans = ctx.driver.ask1(f"c17 {cmd} {text.encode('utf-8').hex() or '.'}")
+    if ans == "[]":
+        return []
+    rows = []
+    for r in ans.split("|"):
+        row = []
+        for v in r.split(";"):
+            if v.startswith("f:") and v != "f:nan":
+                row.append(("f", float(Fraction(v[2:]))))  # the correctly rounded double of the exact decimal
+            else:
+                row.append(v)
+        rows.append(row)
+    return rows
+
+
+def parser_vs_model(run, pname: str, cmd: str, names: List[str], case, text: str, path: Path, blank_filter: bool, rng) -> None:
+    """the library's parser and the Lean parser model on the same bytes: the written file and, for a sample, variants
+    of it that reach the other branches of the line handling (comment lines, trailing comments, blank lines, CRLF)"""
+    ctx = run.ctx
+    variants = [("written", text, path)]
+    if rng.random() < 0.3:
+        lines = text.splitlines(keepends=True)
+        k = rng.choice(["comment-line", "trailing-comment", "blank-line", "crlf", "no-final-newline", "short-line"])
+        at = rng.randint(min(len(lines), 6), len(lines))
+        if k == "comment-line":
+            lines.insert(at, "# a remark\n")
+        elif k == "blank-line":
+            lines.insert(at, rng.choice(["\n", "   \n"]))
+        elif k == "trailing-comment" and at < len(lines):
+            cut = rng.randint(0, len(lines[at]) - 1)
+            lines[at] = lines[at][:cut] + "# cut" + lines[at][cut:]
+        elif k == "crlf":
+            lines = [l.replace("\n", "\r\n") for l in lines]
+        elif k == "no-final-newline" and lines:
+            lines[-1] = lines[-1].rstrip("\n")
+        elif k == "short-line" and at < len(lines):
+            lines[at] = lines[at][: rng.randint(1, len(lines[at]) - 1)] + "\n"
+        vt = "".join(lines)
+        vp = run.path(pname + "_variant")
+        with open(vp, "w", newline="") as f:
+            f.write(vt)
+        variants.append((k, vt, vp))
+    for k, vt, vp in variants:
+        ctx.count(f"parser-model:{pname}:{k}")
+        impl = real_rows(pname, vp, names, blank_filter)
+        model = model_rows(ctx, cmd, vt)
+        if impl != model:
+            bad = next((j for j, (a, b) in enumerate(zip(model, impl)) if a != b), None) if isinstance(impl, list) else None
+            ctx.disagree(f"{pname} parser vs Lean parser model ({k})", {**case, "variant": k, "first_bad_row": bad},
+                         model[bad or 0 : (bad or 0) + 1], impl if not isinstance(impl, list) else impl[bad or 0 : (bad or 0) + 1])
 
 
 # -------------------------------------------------------------------------------------------------
@@ -337,6 +537,30 @@ def case_crd(run: Run, rng, vel: bool, si=None):
             si = gen_site_info(rng, 0, keys=list(si))
     write_nan = rng.random() < 0.4
     writer = "bernese_vel" if vel else "bernese_crd"
+    # a share of inputs *outside* the property's quantifier (and outside the range predicate of crd_file_roundtrip): they
+    # reach the overflow / comment / blank-entry paths of the renderer and parser models; compared with the real code,
+    # not judged by the oracle
+    beyond = None
+    with_coord = [k for k, d in si.items() if d["site_coord"].get("last") is not None]
+    if with_coord and rng.random() < 0.12:
+        beyond = rng.choice(["coord-overflow", "long-domes", "hash-domes", "long-key", "blank-key"])
+        k = rng.choice(with_coord)
+        c = si[k]["site_coord"]["last"]
+        if beyond == "coord-overflow":
+            big = rng.choice([1, -1]) * 10.0 ** rng.randint(9, 12) * rng.uniform(1, 9)
+            if vel:
+                c.vel[rng.randint(0, 2)] = big
+            else:
+                setattr(c.pos.trs, rng.choice("xyz"), big)
+        elif beyond == "long-domes":
+            si[k]["identifier"].domes = "12345M00123X"[: rng.randint(10, 12)]
+        elif beyond == "hash-domes":
+            si[k]["identifier"].domes = rng.choice(["1#337M001", "#", "10337M0#"])
+        elif beyond == "long-key":
+            si = {(kk + "x" if kk == k else kk): v for kk, v in si.items()}
+        elif beyond == "blank-key" and "    " not in si:
+            si = {("    " if kk == k else kk): v for kk, v in si.items()}
+        ctx.count(f"{writer}-beyond-range:{beyond}")
     epoch = rng.choice([None, datetime(2010, 1, 1), datetime(2023, 6, 1, 12, 30, 15)])
     datum = rng.choice(["IGb14", "IGS20", "ITRF2014", "UNKNOWN"])
     case = {"writer": writer, "stations": {k: [None if d["site_coord"].get("last") is None else
@@ -361,6 +585,22 @@ def case_crd(run: Run, rng, vel: bool, si=None):
     body = lines[6:]
     if model is None or body != model:
         ctx.disagree(f"{writer} data lines", case, model, body)
+    # ---- the whole file against the Lean renderer
+    ep_txt = epoch.strftime("%Y-%m-%d %H:%M:%S") if epoch else "UNKNOWN"
+    ht = header_texts(writer, text, "nma", *([datum] if vel else [datum, ep_txt]))
+    if ht is None:
+        ctx.disagree(f"{writer} header line", case, "'<solution:64s> <stamp>'", lines[:1])
+    else:
+        file_vs_model(ctx, writer, f"c17 {'velfile' if vel else 'crdfile'} {','.join(hexs(t) for t in ht)} {int(write_nan)} "
+                      f"{stations_arg(si, vel)}", case, text)
+    if not vel:
+        parser_vs_model(run, "bernese_crd", "crdparse", CRD_NAMES, case, text, run.last_path, False, rng)
+        # the range predicate of the file-level theorem (crd_file_roundtrip) on this input: inside it the theorem promises
+        # the read-back the oracle below demands from the real code
+        in_range = ht is not None and drv.ask1(f"c17 crdrange {','.join(hexs(t) for t in ht)} {int(write_nan)} {stations_arg(si, vel)}") == "1"
+        ctx.count("crd-roundtrip-range:" + ("inside" if in_range else "outside"))
+    if beyond:
+        return
     # ---- oracle: columns kept, read-back
     widths = {len(l) for l in body}
     expected = {k: d for k, d in si.items() if d["site_coord"].get("last") is not None
@@ -430,6 +670,15 @@ def case_clu_abb(run: Run, rng):
     if body != model:
         ctx.disagree("bernese_clu data lines", case, model, body)
     if body is not None:
+        ht = header_texts("bernese_clu", text, "nma")
+        if ht is None:
+            ctx.disagree("bernese_clu header line", case, "'<solution:64s> <stamp>'", text.splitlines()[:1])
+        else:
+            file_vs_model(ctx, "bernese_clu", f"c17 clufile {','.join(hexs(t) for t in ht)} " + (",".join(hexs(k) for k in si) or "[]"),
+                          case, text)
+        parser_vs_model(run, "bernese_clu", "cluparse", CLU_NAMES, case, text, run.last_path, True, rng)
+        in_range = ht is not None and drv.ask1(f"c17 clurange {','.join(hexs(t) for t in ht)} " + (",".join(hexs(k) for k in si) or "[]")) == "1"
+        ctx.count("clu-roundtrip-range:" + ("inside" if in_range else "outside"))
         with quiet():
             try:
                 back = parsers.parse_file("bernese_clu", run.last_path).as_dict()
@@ -448,7 +697,7 @@ def case_clu_abb(run: Run, rng):
         return
     rows = [l for l in text.splitlines()[5:] if l.strip()]
     line_no = ROWLINE.get("bernese_abb")
-    bad = [l for l in rows if drv.ask1(f"c17 conforms bernese_abb {line_no} {hexs(l + chr(10))}") != "1"]
+    bad = [l for l, a in zip(rows, drv.ask([f"c17 conforms bernese_abb {line_no} {hexs(l + chr(10))}" for l in rows])) if a != "1"]
     if bad:
         ctx.disagree("bernese_abb lines vs regenerated layout", case2, "conforms", bad[:3])
     ids = [l[34:40].strip() for l in rows]
@@ -458,6 +707,8 @@ def case_clu_abb(run: Run, rng):
 
 
 ROWLINE: Dict[str, int] = {}
+CRD_NAMES: List[str] = []
+CLU_NAMES: List[str] = []
 
 
 # -------------------------------------------------------------------------------------------------
@@ -470,17 +721,24 @@ def case_sta(run: Run, rng, si=None):
     from midgard import parsers
 
     if si is None:
-        si = gen_site_info(rng, rng.choice([1, 2, 5, 12]))
+        si = gen_site_info(rng, rng.choice([1, 2, 5, 12]), irregular=0.35)
         if rng.random() < 0.5:
             # the same station codes once more, with updated site information (other equipment periods)
             case_sta(run, rng, si)
             ctx.count("updated-site-info")
-            si = gen_site_info(rng, 0, keys=list(si))
-    case = {"writer": "bernese_sta", "stations": {k: {"periods": [[str(a), str(b)] for a, b in d["antenna"].history],
+            si = gen_site_info(rng, 0, keys=list(si), irregular=0.35)
+    hist = lambda d, kind: [[str(a), str(b)] for a, b in d[kind].history]
+    case = {"writer": "bernese_sta", "stations": {k: {"periods": hist(d, "antenna"), "receiver": hist(d, "receiver"),
+                                                       "eccentricity": hist(d, "eccentricity"),
                                                        "domes": d["identifier"].domes} for k, d in si.items()}}
     ctx.case(case, nontrivial=True)
     ctx.count("bernese_sta")
-    text = run.write("bernese_sta", {"site_info": si}, case, agency="nma", skip_firmware=rng.random() < 0.5)
+    n_irr = sum(1 for d in si.values() if not (list(d["antenna"].history) == list(d["receiver"].history) == list(d["eccentricity"].history)))
+    ctx.count("sta-stations-own-histories", n_irr)
+    ctx.count("sta-stations-interrupted", sum(1 for d in si.values() for kind in ("antenna", "receiver", "eccentricity")
+                                                if any(p[1] < q[0] for p, q in zip(list(d[kind].history), list(d[kind].history)[1:]))))
+    skip_fw = rng.random() < 0.5
+    text = run.write("bernese_sta", {"site_info": si}, case, agency="nma", skip_firmware=skip_fw)
     if text.startswith("!!"):
         ctx.violate("bernese_sta:raises", f"bernese_sta raised: {text[:160]}", case)
         return
@@ -494,7 +752,8 @@ def case_sta(run: Run, rng, si=None):
         elif cur and len(l) > 5 and l[:4].strip() and l[4] == " " and not l.startswith(("STATION", "****", "----")):
             sect[cur].append(l)
     for tname, tl in (("TYPE 001", STA_LINES[0]), ("TYPE 002", STA_LINES[1]), ("TYPE 003", STA_LINES[2])):
-        bad = [l for l in sect.get(tname, []) if drv.ask1(f"c17 conforms bernese_sta {tl} {hexs(l + chr(10))}") != "1"]
+        sl = sect.get(tname, [])
+        bad = [l for l, a in zip(sl, drv.ask([f"c17 conforms bernese_sta {tl} {hexs(l + chr(10))}" for l in sl])) if a != "1"]
         ctx.count("sta-lines-checked", len(sect.get(tname, [])))
         if bad:
             ctx.disagree(f"bernese_sta {tname} lines vs regenerated layout", case, "conforms", bad[:2])
@@ -509,13 +768,21 @@ def case_sta(run: Run, rng, si=None):
         if set(back) - set(si):
             ctx.violate(f"bernese_sta:readback-stations:{pname}", f"read stations {sorted(set(back) - set(si))} that were not written", case)
             continue
-        # every equipment period handed to the writer has its TYPE 002 line (and there are no others)
+        # every equipment change at which receiver, antenna and eccentricity are all defined has its TYPE 002 line, and
+        # there is no line that starts where one of them is not installed
         for k, d in si.items():
-            want = sorted(p[0] for p in d["antenna"].history)
+            want = sta_expected_starts(d, skip_fw)
             got = sorted(e["date_from"] for e in back.get(k, []))
+            extra = [t for t in got if t not in want]
+            if extra:
+                undefined = [kind for kind in ("receiver", "antenna", "eccentricity") if sta_at(d[kind].history, extra[0]) is None]
+                ctx.violate(f"bernese_sta:record-without-equipment:{pname}", f"{k}: a TYPE 002 record starts {extra[0]}, where the site "
+                            f"information has no {'/'.join(undefined) or 'equipment change'} (histories: receiver {hist(d, 'receiver')}, "
+                            f"antenna {hist(d, 'antenna')}, eccentricity {hist(d, 'eccentricity')})", case)
+                return
             if got != want:
-                ctx.violate(f"bernese_sta:readback-periods:{pname}", f"{k}: equipment periods starting {[str(t) for t in want]} were given, "
-                            f"TYPE 002 lines read back start {[str(t) for t in got]}", case)
+                ctx.violate(f"bernese_sta:readback-periods:{pname}", f"{k}: equipment changes with complete equipment at {[str(t) for t in want]} "
+                            f"were given, TYPE 002 lines read back start {[str(t) for t in got]}", case)
                 return
         for k, entries in back.items():
             d = si[k]
@@ -541,6 +808,33 @@ def case_sta(run: Run, rng, si=None):
 
 
 STA_LINES = [0, 0, 0]
+
+
+def sta_at(history, t):
+    """the entry of an equipment history that is valid at `t` (from <= t < to), None in an interruption"""
+    for (a, b), o in sorted(history.items(), key=lambda kv: kv[0]):
+        if a <= t < b:
+            return o
+    return None
+
+
+def sta_expected_starts(d, skip_firmware: bool):
+    """start dates of the TYPE 002 records the site information asks for: every equipment change (start of an entry of
+    the receiver, antenna or eccentricity history; with skip_firmware not the receiver entries that repeat type and serial
+    number of the entry before) at which a receiver, an antenna and an eccentricity are all installed; the end of the
+    (last) eccentricity entry closes the last record"""
+    ev = set()
+    former = (None, None)
+    for (a, b), o in d["receiver"].history.items():
+        if skip_firmware:
+            if (o.type, o.serial_number) == former:
+                continue
+            former = (o.type, o.serial_number)
+        ev.add(a)
+    ev |= {a for (a, b) in d["antenna"].history} | {a for (a, b) in d["eccentricity"].history}
+    ev.add(list(d["eccentricity"].history)[-1][1])
+    evs = sorted(ev)
+    return [t for t in evs[:-1] if all(sta_at(d[kind].history, t) is not None for kind in ("receiver", "antenna", "eccentricity"))]
 
 
 # -------------------------------------------------------------------------------------------------
@@ -718,9 +1012,34 @@ def tms_one_station(run: Run, rng, dft, d, sta, has_east, nsta):
     if mlist != markers:
         ctx.disagree("sinex_tms block order", case, mlist, markers)
     # ---- data block: header line and data lines byte for byte
+    if "+TIMESERIES/DATA\n" not in lines or "-TIMESERIES/DATA\n" not in lines or \
+            lines.index("-TIMESERIES/DATA\n") < lines.index("+TIMESERIES/DATA\n") + 2:
+        ctx.violate("sinex_tms:block-missing", f"the written file has no complete TIMESERIES/DATA block: markers {markers}", case)
+        return
     i0 = lines.index("+TIMESERIES/DATA\n")
     i1 = lines.index("-TIMESERIES/DATA\n")
     hdr, body = lines[i0 + 1], lines[i0 + 2 : i1]
+    # ---- oracle: every quantity of the dataset the format has a column for is written (meaning table above, not the
+    #      writer's own tables); the reference coordinate block is there when displacements are
+    written_cols = [t[1:].rstrip("_") for t in hdr[1:].split() if t.startswith("_")]
+    i_first = int(np.where(np.asarray(d.filter(station=sta)))[0][0])
+    have = []
+    for c, get in TMS_MEANING.items():
+        try:
+            get(d, i_first)
+            have.append(c)
+        except Exception:
+            pass
+    ctx.count(f"tms-columns:{len(have)}")
+    missing = [c for c in have if c not in written_cols]
+    if missing:
+        ctx.violate("sinex_tms:columns-missing", f"the dataset has the quantities of columns {missing[:8]} but the written file has only the "
+                    f"columns {written_cols} (earlier files of this process: {run.calls.get('sinex_tms', 0)})", case)
+        return
+    if has_east and "+TIMESERIES/REF_COORDINATE\n" not in lines:
+        ctx.violate("sinex_tms:ref-coordinate-missing", "the dataset has displacements with a reference position but the written file "
+                    f"has no TIMESERIES/REF_COORDINATE block: markers {markers}", case)
+        return
     mh = drv.ask1("c17 tmshdr " + ",".join(cols))
     if mh == "err" or bytes.fromhex(mh).decode() + "\n" != hdr:
         ctx.disagree("sinex_tms column header line", case, mh, hdr)
@@ -741,7 +1060,7 @@ def tms_one_station(run: Run, rng, dft, d, sta, has_east, nsta):
         ctx.disagree("sinex_tms TIMESERIES/DATA lines", {**case, "first_bad_line": bad},
                      None if model is None else model[bad or 0 : (bad or 0) + 2], body[bad or 0 : (bad or 0) + 2])
     # ---- ref coordinate line against the regenerated layout
-    if "EAST" in cols:
+    if "EAST" in cols and "+TIMESERIES/REF_COORDINATE\n" in lines:
         j = lines.index("+TIMESERIES/REF_COORDINATE\n")
         rl = lines[j + 2]
         if drv.ask1(f"c17 conforms sinex_tms {TMS_REF_LINE} {hexs(rl)}") != "1":
@@ -806,7 +1125,9 @@ def tms_one_station(run: Run, rng, dft, d, sta, has_east, nsta):
             ctx.violate("sinex_tms:readback-ref-coordinate", f"reference coordinate wrote {ref.tolist()} {d.meta['ref_frame']}, read {rc}", case)
     # ---- SOLUTION/ESTIMATE: every written value/sigma is the one of its own component (no matching parser: checked
     #      on the text with the writer's own column ruler)
-    if est:
+    if est and ("+SOLUTION/ESTIMATE\n" not in lines or "-SOLUTION/ESTIMATE\n" not in lines):
+        ctx.violate("sinex_tms:block-missing", f"trend estimates were given but the file has no SOLUTION/ESTIMATE block: markers {markers}", case)
+    elif est:
         j0, j1 = lines.index("+SOLUTION/ESTIMATE\n"), lines.index("-SOLUTION/ESTIMATE\n")
         for l in lines[j0 + 2 : j1]:
             toks = l.split()
@@ -953,7 +1274,7 @@ def case_gamit_sta_gipsyx(run: Run, rng):
         ctx.violate("gamit_station_info:raises", f"gamit_station_info raised: {text[:160]}", case)
     else:
         rows = text.splitlines()[3:]
-        bad = [l for l in rows if drv.ask1(f"c17 conforms gamit_station_info {GAMIT_LINES['sta']} {hexs(l + chr(10))}") != "1"]
+        bad = [l for l, a in zip(rows, drv.ask([f"c17 conforms gamit_station_info {GAMIT_LINES['sta']} {hexs(l + chr(10))}" for l in rows])) if a != "1"]
         ctx.count("gamit-sta-lines-checked", len(rows))
         if bad:
             ctx.disagree("gamit_station_info lines vs regenerated layout", case, "conforms", bad[:2])
@@ -998,8 +1319,8 @@ def case_gamit_sta_gipsyx(run: Run, rng):
     ids = [l for l in lines if l[6:10] == "ID  "]
     rxs = [l for l in lines if l[6:13] == "RX     "]
     ants = [l for l in lines if l[6:13] == "ANT    "]
-    bad = [l for l in ids if drv.ask1(f"c17 conforms gipsyx_site_info {GAMIT_LINES['gx_id']} {hexs(l + chr(10))}") != "1"]
-    bad += [l for l in rxs if drv.ask1(f"c17 conforms gipsyx_site_info {GAMIT_LINES['gx_rx']} {hexs(l + chr(10))}") != "1"]
+    bad = [l for l, a in zip(ids, drv.ask([f"c17 conforms gipsyx_site_info {GAMIT_LINES['gx_id']} {hexs(l + chr(10))}" for l in ids])) if a != "1"]
+    bad += [l for l, a in zip(rxs, drv.ask([f"c17 conforms gipsyx_site_info {GAMIT_LINES['gx_rx']} {hexs(l + chr(10))}" for l in rxs])) if a != "1"]
     ctx.count("gipsyx-lines-checked", len(ids) + len(rxs))
     if bad:
         ctx.disagree("gipsyx_site_info lines vs regenerated layout", case2, "conforms", bad[:2])
@@ -1166,14 +1487,20 @@ def case_csv(run: Run, rng):
 
 
 def run(ctx: Ctx, prove: bool = True):
-    from translator import extract_writers
+    from translator import extract_writers, extract_writer_effects
 
     info = extract_writers.main()
+    eff = extract_writer_effects.main()
+    ctx.extra["writer_effect_sites"] = [list(r) for r in eff["effects"]]
+    ctx.extra["writer_effect_roots"] = len(eff["roots"])
+    ctx.extra["writer_effect_reach"] = [list(r) for r in eff["reach"]]
     if prove:
         ctx.proof = common.prove("C17")
     rng = ctx.rng
     for r in info["rows"]:
         ROWLINE.setdefault(r["writer"], r["line"])
+    CRD_NAMES[:] = info["crd"]["names"]
+    CLU_NAMES[:] = info["clu"]["names"]
     sta = [r["line"] for r in info["rows"] if r["writer"] == "bernese_sta"]
     STA_LINES[:] = sta[:3] if len(sta) >= 3 else [0, 0, 0]
     global TMS_REF_LINE
